@@ -87,6 +87,23 @@ func (s *SSHServer) Snapshot(f func()) {
 	f()
 }
 
+// Reset clears everything recorded so far (between two connections of one history).
+func (s *SSHServer) Reset() {
+	s.mu.Lock()
+	defer s.mu.Unlock()
+	s.TCPConns, s.Handshakes = 0, 0
+	s.Events, s.Methods, s.SessionReqs, s.Stdin = nil, nil, nil, nil
+	s.EstUser, s.EstMethod = "", ""
+}
+
+// SetAccept replaces the credential policy and the number of keyboard-interactive prompts.
+func (s *SSHServer) SetAccept(accept func(SSHAuthEvent) bool, questions int) {
+	s.mu.Lock()
+	defer s.mu.Unlock()
+	s.Accept = accept
+	s.Questions = questions
+}
+
 // Close stops listening and waits for the accept loop.
 func (s *SSHServer) Close() {
 	s.ln.Close()
@@ -126,7 +143,9 @@ func (s *SSHServer) config() *ssh.ServerConfig {
 			return nil, deny
 		},
 		KeyboardInteractiveCallback: func(c ssh.ConnMetadata, ch ssh.KeyboardInteractiveChallenge) (*ssh.Permissions, error) {
+			s.mu.Lock()
 			n := s.Questions
+			s.mu.Unlock()
 			qs := make([]string, n)
 			echos := make([]bool, n)
 			for i := range qs {
